@@ -14,6 +14,7 @@ import (
 
 	"github.com/godaddy/asherah/go/appencryption"
 	"github.com/godaddy/asherah/go/appencryption/pkg/crypto/aead"
+	applog "github.com/godaddy/asherah/go/appencryption/pkg/log"
 	"pgregory.net/rapid"
 	"verif/kit"
 	"verifhook"
@@ -22,7 +23,7 @@ import (
 func TestMain(m *testing.M) {
 	kit.Main(m, "C16", "exploration",
 		"session caching on, sizes 1-3, every session-cache eviction policy (default slru, lru, lfu, tinylfu), expiry 0 / 2 s / 1 min on the virtual clock, per-session and shared IK caches. "+
-			"(0) session caches of capacity 100 / 101 (where the frequency-sketch policies switch on their admission window) walked through by up to 3 x (capacity + 25) gets with re-gets of recent partitions and handles held across them; (1) rapid state machine: get a session (more partitions than slots), use a held session (encrypt / decrypt any earlier record of its partition), close a handle, advance the clock, with handles held across other partitions' gets; "+
+			"(00) the sequential machine with a debug logger installed; parallel first GetSession calls on a fresh factory; a hot partition got and closed by many goroutines while held; (0) session caches of capacity 100 / 101 (where the frequency-sketch policies switch on their admission window) walked through by up to 3 x (capacity + 25) gets with re-gets of recent partitions and handles held across them; (1) rapid state machine: get a session (more partitions than slots), use a held session (encrypt / decrypt any earlier record of its partition), close a handle, advance the clock, with handles held across other partitions' gets; "+
 			"(2) concurrent: 2-6 goroutines doing the same under a rapid-drawn delay plan (1-3 pauses) over the yield points in session_cache.go, session.go, pkg/cache/cache.go and key_cache.go, plus every reachable site of session_cache.go and pkg/cache/cache.go as a single preemption for tight configurations. "+
 			"Oracle: every operation on a held session succeeds with the right bytes no matter what was evicted or expired meanwhile; two consecutive GetSession calls for one partition with no other partition requested and no expiry in between return the same underlying session; "+
 			"the tracking SecretFactory never sees a secret read after it was closed nor closed twice; after the factory and the last holders are closed every secret is released (bounded polling for the asynchronous teardown). "+
@@ -643,5 +644,136 @@ func TestHotPartition(t *testing.T) {
 			return map[string]any{"config": c.String(), "goroutines": workers, "get_close_rounds_each": rounds}
 		})
 		kit.Rec.Label("hot-partition")
+	})
+}
+
+// quietLogger is a debug logger that discards what it is given (installing ANY logger switches the
+// SDK's debug code paths on).
+type quietLogger struct{ n atomic.Int64 }
+
+func (q *quietLogger) Debugf(format string, v ...interface{}) { q.n.Add(1) }
+
+// TestWithDebugLogging: the sequential promises hold when the application has a debug logger
+// installed (log.SetLogger): same state machine as TestSequential, fewer cases.
+func TestWithDebugLogging(t *testing.T) {
+	applog.SetLogger(&quietLogger{})
+	defer applog.SetLogger(nil)
+	kit.Steps(25)
+	kit.Check(t, 60, 2400, func(t *rapid.T) {
+		verifhook.InstallClock(time.Unix(1_700_000_000, 0))
+		defer verifhook.RemoveClock()
+		c := drawCfg(t)
+		e := newEnv(c)
+		var trace []string
+		where := func() string {
+			return fmt.Sprintf("config: %s (debug logger installed)\n  history: %s", c, strings.Join(trace, "; "))
+		}
+		bad := func(msg string) {
+			kit.Rec.Violation(msg)
+			t.Fatalf("C16 violated: %s\n  %s", msg, where())
+		}
+		var held []*handle
+		n := rapid.IntRange(3, 20).Draw(t, "gets")
+		for i := 0; i < n; i++ {
+			part := fmt.Sprintf("p%d", rapid.IntRange(0, c.parts-1).Draw(t, "part"))
+			trace = append(trace, "get "+part)
+			var s *appencryption.Session
+			var err error
+			guard("GetSession("+part+")", where, func() { s, err = e.f.GetSession(part) })
+			if err != nil {
+				bad("GetSession failed: " + err.Error())
+			}
+			var msg string
+			guard("an operation on a session of "+part, where, func() { msg = e.use(s, part, i, fmt.Sprint(i)) })
+			if msg != "" {
+				bad(msg)
+			}
+			if rapid.IntRange(0, 2).Draw(t, "hold") == 0 {
+				held = append(held, &handle{s: s, part: part})
+			} else {
+				guard("Session.Close on "+part, where, func() { s.Close() })
+			}
+		}
+		// some handles are closed before the factory, some sessions are still cached when it closes
+		for _, h := range held {
+			guard("Session.Close on "+h.part, where, func() { h.s.Close() })
+		}
+		var fmsg string
+		guard("SessionFactory.Close", where, func() { fmsg = e.finish() })
+		if fmsg != "" {
+			bad(fmsg)
+		}
+		kit.Rec.Case("debuglog|"+c.String()+"|"+strings.Join(trace, ";"), true, func() any {
+			return map[string]any{"config": c.String(), "debug_logger": true, "history": trace}
+		})
+		kit.Rec.Label("with-debug-logger")
+	})
+}
+
+// TestFreshFactoryParallelFirstGets: the very first GetSession calls of a new factory arrive in
+// parallel (a service starting under load). Callers of one partition share one underlying session,
+// and after the handles and the factory are closed everything is released exactly once.
+func TestFreshFactoryParallelFirstGets(t *testing.T) {
+	kit.Check(t, 150, 6000, func(t *rapid.T) {
+		verifhook.InstallClock(time.Unix(1_700_000_000, 0))
+		defer verifhook.RemoveClock()
+		c := drawCfg(t)
+		c.pol.SessionCacheMaxSize = 8
+		c.pol.SessionCacheDuration = time.Hour
+		e := newEnv(c)
+		workers := rapid.IntRange(2, 12).Draw(t, "workers")
+		same := rapid.Bool().Draw(t, "samePartition")
+		got := make([]*appencryption.Session, workers)
+		parts := make([]string, workers)
+		errs := make([]error, workers)
+		var wg sync.WaitGroup
+		start := make(chan struct{})
+		for w := 0; w < workers; w++ {
+			parts[w] = "first"
+			if !same && w%2 == 1 {
+				parts[w] = "second"
+			}
+			wg.Add(1)
+			go func(w int) {
+				defer wg.Done()
+				<-start
+				got[w], errs[w] = e.f.GetSession(parts[w])
+			}(w)
+		}
+		close(start)
+		done := make(chan struct{})
+		go func() { wg.Wait(); close(done) }()
+		select {
+		case <-done:
+		case <-time.After(30 * time.Second):
+			kit.Abort(fmt.Sprintf("C16 violated: parallel first GetSession calls on a fresh factory did not return within 30s\n  config: %s", c))
+		}
+		bad := func(msg string) {
+			kit.Rec.Violation(msg)
+			t.Fatalf("C16 violated: %s\n  config: %s, %d goroutines calling GetSession first thing on a fresh factory", msg, c, workers)
+		}
+		first := map[string]*appencryption.Session{}
+		for w := range got {
+			if errs[w] != nil {
+				bad("GetSession failed: " + errs[w].Error())
+			}
+			if f, ok := first[parts[w]]; ok && f != got[w] {
+				bad(fmt.Sprintf("two of the parallel first GetSession(%s) calls were given different underlying sessions although nothing was evicted or expired", parts[w]))
+			}
+			first[parts[w]] = got[w]
+		}
+		for w, s := range got {
+			if msg := e.use(s, parts[w], w, fmt.Sprint(w)); msg != "" {
+				bad(msg)
+			}
+			s.Close()
+		}
+		if msg := e.finish(); msg != "" {
+			bad(msg)
+		}
+		kit.Rec.Case(fmt.Sprintf("freshfactory|%s|%d|%v", c, workers, same), true, func() any {
+			return map[string]any{"config": c.String(), "parallel_first_gets": workers, "same_partition": same}
+		})
+		kit.Rec.Label("fresh-factory-parallel-first-gets")
 	})
 }
